@@ -27,7 +27,10 @@ RULE = ('Hypothesis: CamxSpec (uamiv[AVERAGE EMISSIONS AIRQUALITY INSTANT] '
         'floats; 4 projection variants) x construction route of the '
         'in-memory file f: PseudoNetCDFFile from arrays, '
         'ioapi_base.from_arrays (uamiv), each with or without an ETFLAG '
-        'variable, or the memmap reader on the reference-encoded file.  '
+        'variable and with float32 / float64 / big-endian float32 / int32 '
+        'variables holding values exact in float32 (read back must equal '
+        'their float32 conversion), or the memmap reader on the '
+        'reference-encoded file.  '
         'Oracle: g = read(write(f)) with the memmap reader (rows/cols given '
         'for met formats): dimension lengths equal; every species/field '
         'float32 bit-identical to f; species order == f VAR-LIST order '
@@ -71,6 +74,8 @@ def cases(draw, tier='quick'):
     spec['route'] = route
     spec['etflag'] = bool(route != 'refread' and fmt == 'uamiv' and
                           draw(st.booleans()))
+    if route != 'refread':
+        draw(C.input_dtypes(spec))
     if fmt == 'wind' and route != 'refread' and spec['lstagger'] is None:
         spec['lstagger'] = draw(st.sampled_from([-1, 0, 1]))
     return spec
@@ -84,6 +89,8 @@ def describe(r, spec, m):
     fmt = spec['fmt']
     r.label('fmt:' + fmt, 'route:' + spec['route'] +
             ('+etflag' if spec.get('etflag') else ''))
+    if spec['route'] != 'refread':
+        r.label('vdtype:' + spec.get('vdtype', 'f4'))
     if fmt == 'uamiv':
         r.label('name:' + spec['name'], 'iproj:%d' % spec['proj']['iproj'])
     nt = spec.get('nsteps', 1)
@@ -156,6 +163,9 @@ def compare(r, spec, m, F, G):
                 continue
             fail(r, spec, 'rt-names', 'variable %s not read back' % name)
             continue
+        if np.asarray(arr).dtype not in (np.dtype('<f4'), np.dtype('>f4')):
+            # f holds float64 / int32 values that are exact in float32
+            arr = np.asarray(arr).astype('<f4')
         msg = C.cmp_bits(G.vars[name][1], arr, 'variable %s' % name)
         if msg:
             fail(r, spec, 'rt-values', msg)
